@@ -531,3 +531,25 @@ package cache
 //@   ensures [others]   forall x http.Header {$hdr[x]} :: x != header && allocatedBefore(x) ==> hdr(x) == old(hdr(x))
 //@   ensures [input]    forall k string :: k != "Content-Encoding" ==> hdr(header)[k] == old(hdr(header)[k])
 //@   ensures [profile]  err == nil ==> resp.CompressSrv == "" && resp.CompressMinLength == 0 && resp.CompressContentTypeFilter == nil
+
+// ---- writing a response into the context (C05) ---------------------------------------------
+
+//@ spec func statusName(s Status) string := (s == StatusFetching) ? "fetching" : ((s == StatusHitForPass) ? "hitForPass" : ((s == StatusHit) ? "hit" : ((s == StatusPassed) ? "passed" : "unknown")))
+//@ func (i Status) String() (s string)
+//@   nopanic
+//@   ensures [name] s == statusName(i)
+
+// what the client gets: the stored status, the stored headers merged into the response header,
+// a Content-Encoding the client accepts (or none), and a body that decodes to the original
+//@ func (resp *HTTPResponse) Fill(c *elton.Context) (err error)
+//@   requires [recv] resp != nil
+//@   requires [ctx]  c != nil
+//@   modifies $hdr[c.rh], c.StatusCode, c.BodyBuffer, $enc
+//@   nopanic
+//@   ensures [status]   err == nil ==> c.StatusCode == resp.StatusCode
+//@   ensures [accepted] err == nil ==> (hget($hdr[c.rh], "Content-Encoding") == ""
+//@                        || (hget($hdr[c.rh], "Content-Encoding") == "br" && acceptsBr(hget($hdr[c.Request.Header], "Accept-Encoding")))
+//@                        || (hget($hdr[c.rh], "Content-Encoding") == "gzip" && acceptsGzip(hget($hdr[c.Request.Header], "Accept-Encoding"))))
+//@   ensures [body]     err == nil && consistent(resp) && c.BodyBuffer != nil ==> decodeOf(hget($hdr[c.rh], "Content-Encoding"), c.BodyBuffer.rest) == rawOf(resp)
+//@   ensures [buffer]   err == nil ==> c.BodyBuffer != nil
+//@   ensures [headers]  err == nil ==> forall k string :: k != "Content-Encoding" ==> $hdr[c.rh][k] == mergeHdr(old($hdr[c.rh]), old(hdr(resp.Header)))[k]
